@@ -5,6 +5,7 @@ from vsa import front
 from vsa.facts import Facts, unwrap, show, walk, lit_value
 from vsa.front import AnalysisBroken
 from vsa.cfg import CFG
+from vsa.alg import Fold
 
 LEVEL = "other"
 X = "votca::xtp::"
@@ -24,6 +25,8 @@ def run(rep, tier):
     rep.rule("R17.2", "for every writer overload (scalars, bool via Index, strings, vectors, matrices, 3-vector lists, eigensystems) there is a reader overload of the same value kind; both use InferDataType of the same type")
     rep.rule("R17.3", "matrix hyperslabs: fStride, fCount, fBlock, mStride, mCount, mBlock, mDim, fStart, mStart are the same expressions of (rows, cols, outer stride, i) in WriteData and ReadData; the reader resizes to the stored extent")
     rep.rule("R17.4", "every public operator() of reader and writer converts H5::Exception into a thrown std::runtime_error (missing names are errors)")
+    rep.rule("R17.6", "list of 3-vectors: element number p is written under a member name that is a function of p, and the reader fetches element p from the "
+                      "same function of p (not from the group's own enumeration order); the reader sizes the list by the number of members")
     rep.rule("R17.5", "overwrite: when the name exists already the old dataset/group is unlinked and created anew; it is never reopened and written with the new dataspace")
     host = os.path.join(front.VERIF, "hosts", "xtp_checkpoint.cc")
     units = [host, front.repo("xtp/src/libxtp/checkpoint.cc")]
@@ -194,6 +197,7 @@ def run(rep, tier):
                     rep.check(ok, "R17.5", key, "existing list group is unlinked and re-created",
                               "CheckpointWriter::WriteData (list of 3-vectors)%s: an existing group is reopened (%s); a shorter list keeps stale trailing members" % (where, calls), g.loc(h), sample=True)
     rep.floor("R17.5", n_w, 3, "overwrite handlers")
+    check_list_names(rep, F, W, R)
     # scalars are attributes of fixed shape: reopen is fine, but must be written after (re)open
     rep.assumptions.append("scalar attributes have a fixed shape; reopening an existing attribute and writing it replaces the value")
 
@@ -249,3 +253,51 @@ def inits(f, names):
         if d.get("name") in names and d.get("init") is not None:
             out[d["name"]] = nows(show(d["init"]))
     return out
+
+
+def check_list_names(rep, F, W, R):
+    """member naming of the Vector3d list: writer and reader must agree on name(position)"""
+    import sympy as sp
+    from vsa.alg import S as _S
+    K = _S("_pos")
+    sides = {}
+    for cls, callee_rx, tag in ((W, r"CheckpointWriter::WriteData$", "writer"), (R, r"CheckpointReader::ReadData$", "reader")):
+        fs = [f for f in F.funcs if f.qname == cls + ("::WriteData" if tag == "writer" else "::ReadData") and f.j["template"] != "pattern"
+              and re.search(r"std::vector<Eigen::Matrix<double, 3, 1", f.j["sig"])]
+        if len(fs) != 1:
+            raise AnalysisBroken("the %s overload for lists of 3-vectors was not found (%d candidates)" % (tag, len(fs)))
+        f = fs[0]
+        rep.analysed(f)
+        fo = Fold(f, record_calls=callee_rx).run()
+        calls = [e for e in fo.events if e["kind"] == "call" and any(isinstance(g_[0], tuple) and g_[0] and g_[0][0] == "loop" for g_ in e["guards"])]
+        if len(calls) != 1 or len(calls[0]["args"]) != 3:
+            raise AnalysisBroken("%s of a 3-vector list: expected one per-element call inside a loop, found %d" % (tag, len(calls)))
+        e = calls[0]
+        lid = [g_[0][1] for g_ in e["guards"] if isinstance(g_[0], tuple) and g_[0] and g_[0][0] == "loop"][-1]
+        l = [x for x in fo.loops if x["lid"] == lid][0]
+        # the position counter: starts at 0 and is incremented by one every iteration
+        counters = [l["syms"][k_] for k_ in l["syms"] if l["init"].get(k_) == 0 and l.get("step", {}).get(k_) is not None
+                    and not isinstance(l["step"][k_], tuple) and sp.simplify(l["step"][k_] - l["syms"][k_]) == 1]
+        name = e["args"][2]
+        elem = e["args"][1]
+        pos = None
+        if l.get("range") is not None and str(l["range"]) == f.j["params"][1]["name"]:
+            # range-for over the list: the element is the loop variable; its position is the counter
+            pos = counters[0] if len(counters) == 1 else None
+        else:
+            m_ = re.search(r"at\(%s, ([^)]*)\)" % re.escape(f.j["params"][1]["name"]), str(elem))
+            pos = [c_ for c_ in counters if m_ and str(c_) == m_.group(1)]
+            pos = pos[0] if pos else None
+        if pos is None:
+            raise AnalysisBroken("%s of a 3-vector list: the position of the element in the list is not recognised (element %s, counters %s)" % (tag, str(elem)[:60], counters))
+
+        def ren(v):
+            if isinstance(v, tuple):
+                return tuple(ren(x) for x in v)
+            return v.xreplace({pos: K}) if hasattr(v, "xreplace") else v
+        sides[tag] = (f, ren(name), e)
+    (fw, nw, ew), (fr, nr, er) = sides["writer"], sides["reader"]
+    dep = lambda v: "_pos" in str(v)
+    rep.check(nw == nr and dep(nw), "R17.6", "list-member-names", "element p is stored and fetched under the same name(p) = %s" % (nw,),
+              "a list of 3-vectors is written with member names %s but read back from %s: elements come back in another order (HDF5 enumerates links "
+              "lexicographically: ind0, ind1, ind10, ind11, ind2, ...) or from other members" % (nw, nr), fr.loc(er["node"]), sample=True)
